@@ -60,8 +60,28 @@ def prop_norm(dt, v, index=None):
     return S.norm(dt, v)
 
 
+from bacpypes.local.object import WriteableObjectNameMixIn
+from bacpypes.object import AnalogValueObject, BinaryValueObject, MultiStateValueObject, register_object_type
+
+
+@register_object_type(vendor_id=998)
+class RenamableAV(WriteableObjectNameMixIn, AnalogValueObject):
+    pass
+
+
+@register_object_type(vendor_id=998)
+class RenamableBV(WriteableObjectNameMixIn, BinaryValueObject):
+    pass
+
+
+@register_object_type(vendor_id=998)
+class RenamableMSV(WriteableObjectNameMixIn, MultiStateValueObject):
+    pass
+
+
 class World:
-    def __init__(self, run, rng):
+    def __init__(self, run, rng, full=False):
+        """full: every optional property present and arrays not empty where the generator can help it (the systematic pass)"""
         self.run = run
         self.rng = rng
         CLOCK.reset()
@@ -70,6 +90,7 @@ class World:
         self.dev = ServiceDevice(self.lan, 5, maxApduLengthAccepted=1476)
         self.client = SyncClient(self.lan, 1, maxApduLengthAccepted=1476)
         self.objs = {}
+        self.grown = {}             # (oid, pid) -> number of leading elements that were written by somebody
         self.mutable = {}
         built = 0
         for (otype, vendor), cls in sorted(registered_object_types.items(), key=lambda kv: str(kv[0])):
@@ -84,10 +105,14 @@ class World:
             for pid, prop in cls._properties.items():
                 if pid in SKIP_PROPS or obj._values.get(pid) is not None:
                     continue
-                if rng.random() < 0.25:
+                if rng.random() < 0.25 and not full:
                     continue                 # leave some optional properties absent
                 try:
                     val = S.gen_element(rng, prop.datatype, 1)
+                    for _ in range(4):
+                        if not (full and issubclass(prop.datatype, Array) and hasattr(val, "value") and len(val.value) <= 1):
+                            break
+                        val = S.gen_element(rng, prop.datatype, 1)
                     if S.is_listof(prop.datatype):
                         pass                 # lists are kept as plain lists
                     obj._values[pid] = val
@@ -128,6 +153,18 @@ class World:
             self.cmd[(otype, 2)] = {"dt": dt, "slots": [None] * 17, "default": S.norm(dt, obj._values.get("relinquishDefault")),
                                     "choice": [b for b in sub.__mro__ if getattr(b, "__name__", "") == "_Commando"][0]._pv_choice}
             built += 1
+        # objects whose name can be written (instance 3): the device keeps its names unique
+        self.renamable = {}
+        for cls, nm in ((RenamableAV, "alpha"), (RenamableBV, "beta"), (RenamableMSV, "gamma"), (RenamableAV, "delta")):
+            inst = 3 + len(self.renamable)
+            try:
+                obj = cls(objectIdentifier=(cls.objectType, inst), objectName=nm)
+                self.dev.app.add_object(obj)
+            except Exception as err:
+                run.seen("cannot_build_object", "renamable:%s" % type(err).__name__)
+                continue
+            self.objs[(cls.objectType, inst)] = obj
+            self.renamable[(cls.objectType, inst)] = nm
         run.counters["commandable_objects_on_device"] = max(run.counters.get("commandable_objects_on_device", 0), len(self.cmd))
         run.counters["object_types_on_device"] = max(run.counters.get("object_types_on_device", 0), built)
         CLOCK.settle()
@@ -234,6 +271,14 @@ class World:
             except Exception as err:
                 self.run.violation("read-answer-not-decodable-as-property-datatype/" + type(err).__name__, dict(w, error=repr(err)[:120]))
                 return False
+            keep = self.grown.get((oid, pid))
+            if keep is not None and got != want[1]:
+                if index is None and isinstance(got, tuple) and isinstance(want[1], tuple) and len(got) == len(want[1]) and got[:1 + keep] == want[1][:1 + keep]:
+                    self.run.count("device_chosen_elements_not_compared")
+                    return True
+                if index is not None and index > keep:
+                    self.run.count("device_chosen_elements_not_compared")
+                    return True
             if got != want[1]:
                 key = "array-index-0-is-not-the-length" if index == 0 else "array-element-differs" if index else "read-value-differs-from-device-state"
                 self.run.violation(key, dict(w, got=repr(got)[:300], expected=repr(want[1])[:300]))
@@ -267,7 +312,13 @@ class World:
             req.priority = priority
         req.propertyValue = Any()
         try:
-            if inspect.isclass(value_dt) and issubclass(value_dt, Atomic) and not isinstance(value, Atomic):
+            if inspect.isclass(value_dt) and issubclass(value_dt, Unsigned) and isinstance(value, int) and value >= (1 << 32):
+                # an unsigned of more than four octets, as another implementation may send it: the tag is built by hand
+                from bacpypes.primitivedata import Tag
+                octs = value.to_bytes((value.bit_length() + 7) // 8, "big")
+                req.propertyValue.tagList.append(Tag(Tag.applicationTagClass, Tag.unsignedAppTag, len(octs), bytearray(octs)))
+                self.run.count("unsigned_values_longer_than_four_octets_written")
+            elif inspect.isclass(value_dt) and issubclass(value_dt, Atomic) and not isinstance(value, Atomic):
                 req.propertyValue.cast_in(value_dt(value))
             elif S.is_listof(value_dt) and isinstance(value, list):
                 req.propertyValue.cast_in(value_dt(value))
@@ -339,6 +390,8 @@ class World:
                 grown = self.grown_array(oid, pid, obj, prop, int(value), before, w)
                 if grown is not None:
                     return grown
+            if index is None:
+                self.grown.pop((oid, pid), None)
             # exactly the target changed
             changed = [k for k in after if after[k] != before.get(k)]
             others = [k for k in changed if k != (oid, pid)]
@@ -410,6 +463,10 @@ class World:
         req.propertyArrayIndex = new_n
         ans = self.client.call(req)
         if isinstance(ans, ReadPropertyACK):
+            # the device chose the content of the new elements (nobody wrote them): what it keeps in memory for them and what
+            # it reports need not be the same spelling (NameValue() has no name in memory and an empty one on the wire), so
+            # they are not compared with the memory image until they are written
+            self.grown[(oid, pid)] = min(old_n, self.grown.get((oid, pid), old_n))
             return None
         if (isinstance(ans, ErrorPDU) and (ans.errorClass, ans.errorCode) == ("device", "operationalProblem")) or isinstance(ans, RejectPDU):
             # (an empty sequence raises MissingRequiredParameter, which the application answers with a reject)
@@ -421,6 +478,47 @@ class World:
             return True
         self.run.violation("new-array-element-not-readable/" + type(ans).__name__, dict(w, new_length=new_n))
         return False
+
+    def rename(self, oid, new_name, wit):
+        """WriteProperty of objectName on an object that allows it: refused with duplicate-name exactly when another object of
+        the device carries that name now; otherwise acknowledged, read back, and the old name is free again"""
+        taken = {str(o._values.get("objectName")): k for k, o in self.objs.items() if k != oid}
+        taken[str(self.dev.device.objectName)] = ("device", 5)
+        req = WritePropertyRequest(objectIdentifier=oid, propertyIdentifier="objectName", destination=self.dev.address)
+        req.propertyValue = Any()
+        req.propertyValue.cast_in(CharacterString(new_name))
+        before = self.snapshot()
+        ans = self.client.call(req)
+        self.run.count("writes")
+        self.run.count("renames")
+        w = dict(wit, object=oid, new_name=new_name, names_in_use=sorted(self.renamable.values()))
+        after = self.snapshot()
+        if new_name in taken:
+            self.run.count("writes_refused")
+            if not (isinstance(ans, ErrorPDU) and (ans.errorClass, ans.errorCode) == ("property", "duplicateName")):
+                self.run.violation("duplicate-object-name-not-refused-as-such", dict(w, answer=type(ans).__name__, carried_by=taken[new_name]))
+                return False
+            if after != before:
+                self.run.violation("refused-write-changed-the-device", dict(w, answer=type(ans).__name__))
+                return False
+            return True
+        if not isinstance(ans, SimpleAckPDU):
+            ec = (getattr(ans, "errorClass", None), getattr(ans, "errorCode", None)) if isinstance(ans, ErrorPDU) else type(ans).__name__
+            self.run.violation("rename-to-a-free-name-refused/%s" % (ec,), w)
+            return False
+        self.run.count("writes_acknowledged")
+        self.renamable[oid] = new_name
+        others = [k for k in after if after[k] != before.get(k) and k != (oid, "objectName")]
+        if others:
+            self.run.violation("write-changed-another-property", dict(w, others=[repr(k) for k in others[:4]]))
+            return False
+        req2 = ReadPropertyRequest(objectIdentifier=oid, propertyIdentifier="objectName", destination=self.dev.address)
+        ans2 = self.client.call(req2)
+        self.run.count("read_backs")
+        if not isinstance(ans2, ReadPropertyACK) or str(ans2.propertyValue.cast_out(CharacterString)) != new_name:
+            self.run.violation("read-back-differs-from-written-value", dict(w, answer=type(ans2).__name__))
+            return False
+        return True
 
     def commanded(self, oid, cmd, value_dt, value, priority, before, after, w):
         """an acknowledged command / relinquish of a commandable present value: the reference priority array decides what is read"""
@@ -490,7 +588,7 @@ class World:
             sw = [r for r in CLOCK.swallowed.records if r["exc"]][-1:]
             self.run.violation("rpm-not-answered-with-ack/" + type(ans).__name__ + ("/%s@%s" % (sw[0]["exc"], (sw[0]["origin"] or "?").split(":")[1]) if sw else ""),
                                dict(w, swallowed=sw, reason=getattr(ans, "apduAbortRejectReason", None), specs_full=repr(specs),
-                                    frames=[f["data"].hex() for f in self.lan.frames[-4:]] if hasattr(self.lan, "frames") else None))
+                                    frames=[f["octets"].hex() for f in self.lan.frames[-4:]] if hasattr(self.lan, "frames") else None))
             return False
         if len(ans.listOfReadAccessResults) != len(specs):
             self.run.violation("rpm-result-count-differs", w)
@@ -566,7 +664,7 @@ def enum_numbers(klass):
 
 
 def session(run, rng, nops, systematic=False):
-    w = World(run, rng)
+    w = World(run, rng, full=systematic)
     oids = sorted(w.objs)
     all_pids = sorted(PropertyIdentifier.enumerations)
     if systematic:
@@ -585,6 +683,22 @@ def session(run, rng, nops, systematic=False):
                         run.case(("sys", oid, pid, ix), sample=None)
                         if w.read(oid, pid, ix, {"systematic": True}) is False:
                             return
+        # every array property of every object through ReadPropertyMultiple, by index (0, 1, n), against ReadProperty
+        for oid in oids:
+            obj = w.objs[oid]
+            refs = []
+            for pid, prop in sorted(obj._properties.items()):
+                if obj._values.get(pid) is None or not issubclass(prop.datatype, Array) or pid in ("localDate", "localTime"):
+                    continue
+                try:
+                    n = len(obj._values[pid].value) - 1
+                except Exception:
+                    continue
+                refs += [(pid, ix) for ix in sorted({0, 1, n}) if ix <= n or ix == 1]
+            for k in range(0, len(refs), 6):
+                run.case(("sys-rpm", oid, k), sample=None)
+                if w.rpm([(oid, refs[k:k + 6])], {"systematic": True}) is False:
+                    return
         # every commandable object: command, a refused command into a free slot (undefined enumeration number or a value of
         # another datatype), an index on the present value, relinquish; each step judged like any other write
         for oid in sorted(w.cmd):
@@ -628,6 +742,13 @@ def session(run, rng, nops, systematic=False):
             index = rng.choice([0, 1, max(1, n), n + 1, 200, rng.randrange(0, n + 2)])
         r = rng.random()
         run.case(("op", run.shard[0], run.evaluations), sample=None)
+        if w.renamable and rng.random() < 0.06:
+            target = rng.choice(sorted(w.renamable))
+            pool = ["alpha", "beta", "gamma", "delta", "omega", "epsilon"] + [str(o._values.get("objectName")) for o in list(w.objs.values())[:3]]
+            ok = w.rename(target, rng.choice(pool), wit)
+            if ok is False:
+                return
+            continue
         if r < 0.40:
             ok = w.read(oid, pid, index, wit)
         elif r < 0.85:
@@ -647,6 +768,8 @@ def session(run, rng, nops, systematic=False):
                         val = rng.choice([0, 1, 2, 5])
                     elif target is Null:
                         val = ()
+                    elif inspect.isclass(target) and issubclass(target, Unsigned) and getattr(target, "_high_limit", None) is None and rng.random() < 0.1:
+                        val = rng.choice([1 << 32, (1 << 32) + 5, 1 << 40, (1 << 63) + 1])
                     elif inspect.isclass(target) and issubclass(target, Enumerated) and rng.random() < 0.15:
                         val = max(enum_numbers(target)) + rng.choice([1, 3, 40])      # a number the enumeration does not define
                     else:
@@ -691,12 +814,12 @@ def main():
     thorough = run.tier == "thorough"
     if thorough and run.args.shard is None:
         run.run_shards("rv.props.c15", timeout=3400)
-        return run.finish(require=("sessions", "reads", "writes_acknowledged", "writes_refused", "read_backs", "rpm_elements_compared", "commands_checked", "null_valued_writes"))
+        return run.finish(require=("sessions", "reads", "writes_acknowledged", "writes_refused", "read_backs", "rpm_elements_compared", "commands_checked", "null_valued_writes", "renames"))
     rng = run.rng("c15")
     for i in range((640 if thorough else 12) // (run.shard[1] if thorough else 1) + 1):
         run.sample({"session": i, "requests": 300 if thorough else 150})
         session(run, rng, 300 if thorough else 150, systematic=(i == 0 or (thorough and i % 4 == 0)))
-    run.finish(require=("sessions", "reads", "writes_acknowledged", "writes_refused", "read_backs", "rpm_elements_compared", "commands_checked", "null_valued_writes"))
+    run.finish(require=("sessions", "reads", "writes_acknowledged", "writes_refused", "read_backs", "rpm_elements_compared", "commands_checked", "null_valued_writes", "renames"))
 
 
 if __name__ == "__main__":
